@@ -346,8 +346,8 @@ func c16JobOf(spec c16RaceSpec) c16RaceJob {
 func c16GenRaceSpec(g *Rng, rounds int, explicit bool, tag string) c16RaceSpec {
 	spec := c16RaceSpec{}
 	for i := 0; i < rounds; i++ {
-		n := 2 + g.Intn(15)
-		rd := c16RaceSpecRound{GoMaxProcs: []int{2, 4, 8, 16}[g.Intn(4)], Repeat: 1 + g.Intn(2)}
+		n := 4 + g.Intn(13)
+		rd := c16RaceSpecRound{GoMaxProcs: []int{4, 8, 16}[g.Intn(3)], Repeat: 2 + g.Intn(2)}
 		switch i {
 		case 0:
 			n = 6 + g.Intn(5)
@@ -357,6 +357,12 @@ func c16GenRaceSpec(g *Rng, rounds int, explicit bool, tag string) c16RaceSpec {
 			n = 3 + g.Intn(4)
 			rd.GoMaxProcs = []int{4, 8, 16}[g.Intn(3)]
 			rd.Repeat = 1
+		case 2:
+			// many medium trees, each built three times in a row: later iterations call SetSchema again while other
+			// builds are past their own initSchema() (the shape that exposes re-initialisation)
+			n = 12 + g.Intn(5)
+			rd.GoMaxProcs = 16
+			rd.Repeat = 3
 		}
 		for k := 0; k < n; k++ {
 			size := g.Intn(8)
@@ -365,6 +371,8 @@ func c16GenRaceSpec(g *Rng, rounds int, explicit bool, tag string) c16RaceSpec {
 				size = g.Intn(12)
 			case i == 1 && k > 0:
 				size = 20 + g.Intn(30)
+			case i == 2:
+				size = 3 + g.Intn(4)
 			case i > 1 && g.Chance(30):
 				size = 10 + g.Intn(25)
 			}
@@ -468,7 +476,13 @@ func c16RaceSearch(r *Run, g *Rng, procs int, tier string) error {
 	r.Count("race_corpus_jobs", fmt.Sprint(len(specs)))
 	for p := 0; p < procs; p++ {
 		// the race detector reports a given pair of stacks once per process: many short processes
-		specs = append(specs, c16GenRaceSpec(g.Fork(), 2, p%3 == 2, fmt.Sprintf("p%d", p)))
+		// processes whose trees spell out the default version get a third, random-mix round with repetitions: the
+		// re-initialisation race needs builds that are past their own initSchema() while another one re-arms it
+		nr := 2
+		if p%3 == 2 {
+			nr = 3
+		}
+		specs = append(specs, c16GenRaceSpec(g.Fork(), nr, p%3 == 2, fmt.Sprintf("p%d", p)))
 	}
 	for _, spec := range specs {
 		job := c16JobOf(spec)
